@@ -1027,6 +1027,28 @@ func (x *Exec) indexAddr(fr *Frame, st *State, v *ssa.IndexAddr) {
 		fr.regs[v] = &Val{K: VPtr, Typ: v.Type(), Ptr: &PtrInfo{Base: PElem, Arr: s.T, Idx: i.T, Root: at.Elem()}}
 		return
 	}
+	if s.K == VCoins && i.K == VInt {
+		// element i of a Coins value seen as a slice: a (read-only) coin object
+		x.mustNot(fr, st, v, Or(Lt(i.T, Num(0)), Ge(i.T, CoinsLen(s.T))), "index-out-of-range")
+		et := sliceElem(v.X.Type())
+		if et != nil && classify(et) == VStruct {
+			coin := zeroVal(et)
+			den := DenomAt(s.T, i.T)
+			coin.Fields[0] = strVal(den, coin.Fields[0].Typ)
+			amt := Select(s.T, den)
+			if s.IsDec || isDecType(v.X.Type()) {
+				coin.Fields[1] = bigVal(FalseT, amt, coin.Fields[1].Typ)
+			} else {
+				coin.Fields[1] = bigVal(FalseT, amt, coin.Fields[1].Typ)
+			}
+			st.Assume(Neq(amt, Num(0)))
+			ref := st.alloc()
+			_ = st.storeObj(et, ref, "", coin)
+			fr.regs[v] = &Val{K: VPtr, Typ: v.Type(), T: ref, Ptr: &PtrInfo{Base: PObj, Root: et}}
+			x.note("sdk.Coins indexed as a slice: element i is (denomAt(c,i), c[denomAt(c,i)]), read-only")
+			return
+		}
+	}
 	if s.K != VSlice || i.K != VInt {
 		x.note("IndexAddr on unmodelled value " + typeString(v.X.Type()) + " in " + fr.fn.Name())
 		fr.regs[v] = opaqueVal(v.Type())
